@@ -45,6 +45,11 @@ def run(chk, repo, tier):
         raise AnalysisError("oracle r not prime")
     # the rewrite decode(encode(P)) = P used by R4/R5: the encoder and decoder obligations of C11 re-stated (an honest key or
     # signature that does not decode to the point it encodes is rejected by Verify)
+    chk.rule("C01.R9", "SkToPk = [SK]G1 and Sign = [SK]H(m) are scalar multiplications: the group law and the multiply ladder of the "
+                       "optimized BLS12-381 module (C07.R2, C07.R3) re-stated", 10)
+    from . import C07 as _dep_C07
+    from ..report import restate as _restate
+    _restate(chk, "C01.R9", _dep_C07, repo, lambda r, c: r in ("C07.R2", "C07.R3") and "optimized_bls12_381" in c)
     chk.rule("C01.R8", "decode(encode(P)) = P for the keys and signatures the ciphersuites produce: C11's decoder tables, sign "
                        "selection and encoder obligations re-stated", 40)
     from . import C11 as _dep_C11
